@@ -2368,7 +2368,6 @@ unsigned int XMLScanner::resolvePrefix(  const XMLCh* const        prefix
     // check to see if uriId is empty; in XML 1.1 an emptynamespace is okay unless
     // we are trying to use it.
     if (*prefix &&
-        mode == ElemStack::Mode_Element &&
         fXMLVersion != XMLReader::XMLV1_0 &&
         uriId == fElemStack.getEmptyNamespaceId())
         emitError(XMLErrs::UnknownPrefix, prefix);
